@@ -383,7 +383,9 @@ def judge_walk(case, spec, lm, walk, conds, batch, T, seed, cl, chain, rel=1e-5,
                 cl.add("eos_after_127_steps")
         exp = chain(conds[n], toks)
         require(not math.isnan(lp_l[n]) and lp_l[n] > NEG_INF, "a sampled path has a non-finite reported log-probability", lp_l[n], "finite")
-        require(close(float(lp_l[n]), exp, rel=rel, abs_=2e-5), "reported log-probability != chain of the model on the path",
+        # (every float32 log-softmax term carries an absolute error of about 2^-24 however small the term is: a path of
+        # 1024 near-certain tokens has a log-probability of -3e-4 known to about 5e-5 only)
+        require(close(float(lp_l[n]), exp, rel=rel, abs_=2e-5 + L * 2.4e-7), "reported log-probability != chain of the model on the path",
                 float(lp_l[n]), {"tokens": toks, "chain": exp})
         Ls.append(L)
     # the wrapper's log-probability of exactly these paths
@@ -404,12 +406,12 @@ def judge_walk(case, spec, lm, walk, conds, batch, T, seed, cl, chain, rel=1e-5,
         require(list(full.shape) == [S, N, V], "shape of lm(path)", list(full.shape), [S, N, V])
         sl = sequence_log_probs(full, value.t(), 0, eos)
         for n in range(N):
-            require(close(float(sl[n]), float(lp[n]), rel=rel, abs_=2e-5),
+            require(close(float(sl[n]), float(lp[n]), rel=rel, abs_=2e-5 + S * 2.4e-7),
                     "sequence_log_probs(lm(path), path) != the walk's reported log-probability", float(sl[n]), float(lp[n]))
         wl = dist.log_prob(value)
         require(list(wl.shape) == [N], "wrapper log_prob shape", list(wl.shape), [N])
         for n in range(N):
-            require(close(float(wl[n]), float(lp[n]), rel=rel, abs_=2e-5),
+            require(close(float(wl[n]), float(lp[n]), rel=rel, abs_=2e-5 + S * 2.4e-7),
                     "distribution wrapper's log_prob of a walked path != the walk's reported log-probability",
                     float(wl[n]), float(lp[n]))
         if T is not None and S < T:
@@ -941,7 +943,8 @@ def _seq_large_check(case):
     got = sequence_log_probs(dl.relayout(log_in, case["layouts"]["logits"]), dl.relayout(hyp_in, case["layouts"]["hyp"]), dim, eos)
     require(list(got.shape) == lead, "result shape", list(got.shape), lead)
     g = got.reshape(-1).double().numpy()
-    bad = np.nonzero(~(np.abs(g - expected) <= 1e-5 + rel * np.maximum(np.abs(g), np.abs(expected))))[0]
+    atol = 1e-5 + T * 2.4e-7  # an absolute error of about 2^-24 per float32 log-softmax term
+    bad = np.nonzero(~(np.abs(g - expected) <= atol + rel * np.maximum(np.abs(g), np.abs(expected))))[0]
     require(bad.size == 0, "sequence log-probability differs from the definition (NumPy float64) at flat index %s" % bad[:3].tolist(),
             g[bad[:3]].tolist(), {"expected": expected[bad[:3]].tolist(), "first_eos": first_eos[bad[:3]].tolist()})
     # -- the same data as a packed sequence (rank 2): eos is ignored, lengths cut the sequences
@@ -958,12 +961,12 @@ def _seq_large_check(case):
         gp = sequence_log_probs(packed, hyp_p if pos == 1 else hyp_p.t().contiguous(), pos - 2 if case["neg_dim"] else pos, None)
         require(list(gp.shape) == [B], "result shape (packed)", list(gp.shape), [B])
         gpn = gp.double().numpy()
-        badp = np.nonzero(~(np.abs(gpn - exp_p) <= 1e-5 + rel * np.maximum(np.abs(gpn), np.abs(exp_p))))[0]
+        badp = np.nonzero(~(np.abs(gpn - exp_p) <= atol + rel * np.maximum(np.abs(gpn), np.abs(exp_p))))[0]
         require(badp.size == 0, "packed: sequence log-probability differs from the definition at element %s" % badp[:3].tolist(),
                 gpn[badp[:3]].tolist(), {"expected": exp_p[badp[:3]].tolist(), "lens": lens[badp[:3]].tolist()})
         hyp_m = torch.from_numpy(np.where(t_i < lens[:, None], hyp, -1))
         gpad = sequence_log_probs(torch.from_numpy(x.copy()).to(dtype), hyp_m, 1, None).double().numpy()
-        require(bool((np.abs(gpad - gpn) <= 1e-5 + rel * np.abs(gpn)).all()), "packed and padded input disagree",
+        require(bool((np.abs(gpad - gpn) <= atol + rel * np.abs(gpn)).all()), "packed and padded input disagree",
                 gpn[:4].tolist(), gpad[:4].tolist())
         cl.add("packed")
         if len(set(lens.tolist())) >= 2:
@@ -1174,7 +1177,8 @@ def _greedy_large_check(case):
         require(int(ol_l[n]) == len(exp), "out_lens[%d]" % n, int(ol_l[n]), len(exp))
         got = paths[n, : len(exp)].tolist()
         require(got == exp, "greedy path of element %d" % n, got[:40], exp[:40])
-        require(close(float(max_l[n]), score, rel=rel, abs_=1e-6), "greedy score of element %d" % n, float(max_l[n]), score)
+        require(close(float(max_l[n]), score, rel=rel, abs_=1e-6 + (0 if case["is_probs"] else L * 2.4e-7)),
+                "greedy score of element %d" % n, float(max_l[n]), score)
         if len(exp) >= 128:
             cl.add("path_of_128_or_more_labels")
     if lens is not None and len(set(lens)) >= 2:
